@@ -125,10 +125,12 @@ func startReal(cfg rig.Config, seed int64) (*rig.Rig, error) {
 					return r, nil
 				case <-time.After(3 * time.Second):
 					c.Close()
-					mon.Note("real", "warm-up call on a fresh "+cfg.String()+" server was not answered within 3 s; restarting the server")
+					mon.Note("real", "warm-up call on a fresh "+cfg.String()+" server was not answered within 3 s")
 					r.Server.Close()
-					last = fmt.Errorf("warm-up call not answered")
-					continue
+					// No second server in this scenario: once, after such a stalled start, one connection of
+					// the following workload was served by the first (closed) server instance of the process
+					// (a poll-mode/netpoll effect outside the properties); the scenario is inconclusive instead.
+					return nil, fmt.Errorf("warm-up call not answered within 3 s")
 				}
 			}
 			return r, nil
